@@ -142,6 +142,8 @@ NormAl(nodes) ==
       num(c) == IF c \notin live THEN 0 ELSE 1 + Cardinality({c2 \in live : first(c2) < first(c)})
   IN [i \in 1..Len(nodes) |-> [nodes[i] EXCEPT !.attrs = [k \in 1..Len(@) |-> [@[k] EXCEPT !.al = num(@)]]]]
 HasAlias(g) == \E l \in AllLocs(g.nodes) : g.nodes[l[1]].attrs[l[2]].al # 0
+\* the structure alone: every holder of an aliased attribute has an attribute of its own
+NoAl(gg) == [gg EXCEPT !.nodes = [i \in 1..Len(@) |-> [@[i] EXCEPT !.attrs = [k \in 1..Len(@) |-> [@[k] EXCEPT !.al = 0]]]]]
 
 Graphs == {g \in {[root |-> t.ref, nodes |-> t.nodes] : t \in {t \in Gen(1, N, {}) : t.ref.n # 0}} : EveryCycleHasAnObject(g)}
 
@@ -328,8 +330,7 @@ ApplyT(g, t) ==
       u == nd.attrs[t.idx].ref.n            \* sharing operations: the user type the reference leads to now
       id == Len(g.nodes) + 1
   IN
-  CASE t.op \in {"copy", "copyatt"} -> g
-    [] t.op = "unalias" -> [g EXCEPT !.nodes = [i \in 1..Len(@) |-> [@[i] EXCEPT !.attrs = [k \in 1..Len(@) |-> [@[k] EXCEPT !.al = 0]]]]]
+  CASE t.op \in {"copy", "copyatt", "unalias"} -> NoAl(g)     \* (a copy: every DupAttribute call makes an attribute of its own, see DupAs)
     [] t.op = "unshare" ->
          LET c == CopyAnon(Append(g.nodes, [g.nodes[u] EXCEPT !.name = "Z", !.attrs = <<>>]), g.nodes[u].attrs[1].ref)
          IN [g EXCEPT !.nodes = [c.nodes EXCEPT ![id].attrs = <<[g.nodes[u].attrs[1] EXCEPT !.ref = c.ref]>>,
@@ -773,7 +774,6 @@ Terminates == HashDone => \A i \in 1..Len(obs) : obs[i].c <= VisitBound
 
 Reach(root) == Range(Ord(hp.nodes, root, <<>>))
 \* (the structure: which attributes are one object is left aside - NoAl -, see DupAs)
-NoAl(gg) == [gg EXCEPT !.nodes = [i \in 1..Len(@) |-> [@[i] EXCEPT !.attrs = [k \in 1..Len(@) |-> [@[k] EXCEPT !.al = 0]]]]]
 CopyEqual == pc = "mut" /\ script = <<>> => NoAl(Canon(hp, rc)) = NoAl(Canon(hp, ro))
 CopyDisjoint == pc = "mut" => Reach(ro) \cap Reach(rc) = {}
 CopyIndependent == \A i \in 1..Len(unch) : unch[i]
